@@ -91,6 +91,15 @@ def base(which="B1"):
             {"kind": "gate", "model": "BUF", "conns": [["I", "q2"], ["O", "y"]], "cname": "g"},
         ]
         return {"name": "top8", "inputs": ["a", "clk"], "outputs": ["q1", "y"], "items": items, "models": models[1:2]}
+    if which == "B9":  # .conn on the lowest and on a middle bit of a three-bit port (the bits above keep their index)
+        items = [
+            {"kind": "gate", "model": "BUF", "conns": [["I", "x"], ["O", "y"]], "cname": "g0"},
+            {"kind": "gate", "model": "BUF", "conns": [["I", "a[2]"], ["O", "z"]], "cname": "g1"},
+            {"kind": "conn", "a": "a[0]", "b": "x"},
+            {"kind": "conn", "a": "a[1]", "b": "w"},
+            {"kind": "gate", "model": "BUF", "conns": [["I", "w"], ["O", "v"]], "cname": "g2"},
+        ]
+        return {"name": "top9", "inputs": ["a[0]", "a[1]", "a[2]"], "outputs": ["y", "z", "v"], "items": items, "models": models[1:2]}
     raise KeyError(which)
 
 
@@ -183,7 +192,7 @@ engine_b.WORKERS[ID] = worker
 
 def cases(tier):
     out = []
-    for which in ("B1", "B2", "B3", "B4", "B5", "B6", "B7", "B8"):
+    for which in ("B1", "B2", "B3", "B4", "B5", "B6", "B7", "B8", "B9"):
         nitems = len(base(which)["items"])
         for order in itertools.permutations(range(nitems)):
             for models in ("after", "before", "none"):
